@@ -3,6 +3,10 @@ import SF.Props.C10
 import SF.Lemmas.Real
 import SF.Lemmas.SsStable
 import Mathlib.Analysis.SpecialFunctions.Exp
+import SF.Lemmas.DoublePole
+import SF.Lemmas.LagfStable
+import SF.Lemmas.FlexBound
+import SF.Props.C11
 /-
   C09 — Recursive filters are stable and have fading memory for every window length.
 
@@ -18,9 +22,17 @@ import Mathlib.Analysis.SpecialFunctions.Exp
     |c1|·B/(1−a1)² and geometric fading memory (contraction factor (1+a1)/2 per step once the streams have merged), via
     the factorisation of the two-pole section through its complex pole a1·e^{iθ} (`twoPole_bibo` is the generic statement
     and also covers the double real pole of the RoofingFilter / CyberCycle high-pass once |1−α| < 1 is known).
-  Not yet proved (decided by the long bounded-stream and common-tail runs of `./check C09`): |1−α| < 1 for RoofingFilter
-  (N ≥ 2), CyberCycle's kernel bound, and the convergence of the normalised outputs of TrendFlex / ReFlex / LaguerreRSI /
-  EhlersFisherTransform (`…_partial` in DESIGN.md).
+  * CyberCycle (any ordered field): |output| ≤ (N+1)²·B for ever, and fading memory with contraction factor N/(N+1) per
+    step from five steps after two streams have merged (`cyberCycle_bibo`, `cyberCycle_fading`): a double real pole
+    p = 1 − 2/(N+1) is two cascaded one-pole sections.
+  * RoofingFilter (ℝ): |1 − α| < 1 for EVERY window length the constructor accepts (N ≥ 2; N = 2 has a negative pole), hence
+    the high-pass and the whole filter are BIBO with a length-independent bound (`roofing_pole_inside`, `roofing_bibo`).
+  * LaguerreFilter (any ordered field, 0 ≤ γ < 1): |output| ≤ ((1+γ)/(1−γ))³·B for ever (`laguerre_bibo`).
+  * TrendFlex / ReFlex (ℝ): |output| ≤ 5 for every N, EVERY input (bounded or not) and every stream length, because the
+    mean square dominates 0.04·d² (`trendFlex_bound`, `reFlex_bound`).  LaguerreRSI ∈ [0,1] and |Fisher| ≤ ln 199 are C07.
+  Not yet proved (decided by the common-tail runs of `./check C09`): the geometric convergence of RoofingFilter,
+  LaguerreFilter (linear cascades with decaying input) and of the normalised outputs of TrendFlex / ReFlex / LaguerreRSI /
+  EhlersFisherTransform.
 -/
 namespace SF.C09
 open SF SF.Spec
@@ -105,6 +117,57 @@ theorem onePole_decay (p : α) (u u' : Nat → α) (t0 : Nat) (h : ∀ t, t0 < t
         = p * (onePole p u (t0 + k) - onePole p u' (t0 + k)) := by ring
     rw [this, ih]; ring
 
+/-! ### CyberCycle and LaguerreFilter (any ordered field) -/
+variable [Transc α]
+
+/-- **CyberCycle is BIBO stable for every N ≥ 1**: inputs in [−B, B] give |output| ≤ (N+1)²·B, however long the stream -/
+theorem cyberCycle_bibo (N : Nat) (hN : 1 ≤ N) (B : α) (xs : List α) (hx : ∀ x ∈ xs, |x| ≤ B) (v : α)
+    (h : Spec.cyberCycle N xs = some v) : |v| ≤ ((N : α) + 1) * ((N : α) + 1) * B :=
+  DoublePole.cyberCycle_bibo N hN B xs hx v h
+
+/-- … and so is the view itself (state machine), through C11, for every window its constructor accepts -/
+theorem cyberCycle_view_bibo (N : Nat) (hN : 6 ≤ N) (B : α) (xs : List α) (hx : ∀ x ∈ xs, |x| ≤ B) (v : α)
+    (h : (ccCoreU (α := α) N).outAfter xs = .ok (some v)) : |v| ≤ ((N : α) + 1) * ((N : α) + 1) * B := by
+  rw [C11.cyberCycle_eq N hN] at h
+  exact DoublePole.cyberCycle_bibo N (by omega) B xs hx v (by simpa using h)
+
+/-- **fading memory of CyberCycle**: histories `xs ++ t`, `ys ++ t`, |xs| = |ys|.  With d(n) the difference of the two
+outputs at time n, p = 1 − 2/(N+1) and V(n) = |d(n+1)| + (2p/(1−p))·|d(n+1) − p·d(n)|: from five steps after the merge
+V shrinks by (1+p)/2 = N/(N+1) per step and dominates |d| — geometric convergence, no persistence, for every N ≥ 1 -/
+theorem cyberCycle_fading (N : Nat) (hN : 1 ≤ N) (xs ys t : List α) (hl : xs.length = ys.length) (m k : Nat)
+    (hm1 : xs.length + 5 ≤ m + 2) (hm2 : N ≤ m + 3) :
+    let p : α := 1 - 2 / ((N : α) + 1)
+    let d := fun n => DoublePole.cAt N (xs ++ t) n - DoublePole.cAt N (ys ++ t) n
+    let V := fun n => |d (n + 1)| + 2 * p / (1 - p) * |d (n + 1) - p * d n|
+    V (m + k) ≤ ((1 + p) / 2) ^ k * V m ∧ |d (m + k + 1)| ≤ V (m + k) :=
+  DoublePole.cc_fading N hN xs ys t hl m k hm1 hm2
+
+/-- `cAt` is the spec's output: the value CyberCycle reports after n+1 values -/
+theorem cyberCycle_cAt (N : Nat) (xs : List α) (hx : xs ≠ []) :
+    Spec.cyberCycle N xs = (CC.C N xs xs.length).head? := by
+  rw [CC.cyberCycle_unfold]; simp [hx]
+
+/-- the contraction factor of CyberCycle is N/(N+1) < 1 -/
+theorem cyberCycle_factor (N : Nat) (hN : 1 ≤ N) :
+    (1 + (1 - 2 / ((N : α) + 1))) / 2 = (N : α) / ((N : α) + 1) ∧ (N : α) / ((N : α) + 1) < 1 := by
+  have hN' : (1 : α) ≤ (N : α) := by exact_mod_cast hN
+  have hpos : (0 : α) < (N : α) + 1 := by linarith
+  constructor
+  · field_simp; ring
+  · rw [div_lt_one hpos]; linarith
+
+/-- **LaguerreFilter is BIBO stable for every 0 ≤ γ < 1**: |output| ≤ κ³·B with κ = (1+γ)/(1−γ), however long the stream -/
+theorem laguerre_bibo (g B : α) (hg0 : 0 ≤ g) (hg1 : g < 1) (xs : List α) (hx : ∀ x ∈ xs, |x| ≤ B) (v : α)
+    (h : Spec.laguerreFilter g xs = some v) :
+    |v| ≤ (1 + g) / (1 - g) * ((1 + g) / (1 - g) * ((1 + g) / (1 - g) * B)) :=
+  LagfStable.laguerre_bibo g B hg0 hg1 xs hx v h
+
+theorem laguerre_view_bibo (g B : α) (hg0 : 0 ≤ g) (hg1 : g < 1) (xs : List α) (hx : ∀ x ∈ xs, |x| ≤ B) (v : α)
+    (h : (lagfCore (α := α) g).outAfter xs = .ok (some v)) :
+    |v| ≤ (1 + g) / (1 - g) * ((1 + g) / (1 - g) * ((1 + g) / (1 - g) * B)) := by
+  rw [C11.laguerreFilter_eq g] at h
+  exact LagfStable.laguerre_bibo g B hg0 hg1 xs hx v (by simpa using h)
+
 end SF.C09
 
 namespace SF.C09.Real
@@ -169,5 +232,41 @@ theorem fading_dominates (N : Nat) (hN : 0 < N) (st : List ℝ × ℝ) :
 theorem contraction_factor (N : Nat) (hN : 0 < N) : 0 < (1 + SsStable.ssA N) / 2 ∧ (1 + SsStable.ssA N) / 2 < 1 := by
   have := SsStable.ssA_range N hN
   constructor <;> linarith [this.1, this.2]
+
+/-- **the high-pass pole of the RoofingFilter lies strictly inside the unit circle for every N ≥ 2** (the constructor
+rejects N = 1, where the pole is −7.35): 1 − α = (1 − sin θ)/cos θ, θ = 4.4422/N -/
+theorem roofing_pole_inside (N : Nat) (hN : 2 ≤ N) : |1 - roofAlpha (α := ℝ) N| < 1 := DoublePole.roofPole_abs_lt_one N hN
+
+/-- **RoofingFilter(N, M) is BIBO stable for every N ≥ 2, M ≥ 1**, with a bound independent of the stream length -/
+theorem roofing_bibo (N M' : Nat) (hN : 2 ≤ N) (hM : 0 < M') (B : ℝ) (xs : List ℝ) (hx : ∀ x ∈ xs, |x| ≤ B) (v : ℝ)
+    (h : Spec.roofing N M' xs = some v) :
+    |v| ≤ |(Spec.ssCoef (α := ℝ) M').c1| *
+        ((1 - roofAlpha (α := ℝ) N / 2) * (1 - roofAlpha (α := ℝ) N / 2) * (4 * B)
+          / (1 - |1 - roofAlpha (α := ℝ) N|) / (1 - |1 - roofAlpha (α := ℝ) N|))
+        / (1 - SsStable.ssA M') ^ 2 := DoublePole.roofing_bibo N M' hN hM B xs hx v h
+
+theorem roofing_view_bibo (N M' : Nat) (hN : 2 ≤ N) (hM : 0 < M') (B : ℝ) (xs : List ℝ) (hx : ∀ x ∈ xs, |x| ≤ B) (v : ℝ)
+    (h : (roofCoreU (α := ℝ) N M').outAfter xs = .ok (some v)) :
+    |v| ≤ |(Spec.ssCoef (α := ℝ) M').c1| *
+        ((1 - roofAlpha (α := ℝ) N / 2) * (1 - roofAlpha (α := ℝ) N / 2) * (4 * B)
+          / (1 - |1 - roofAlpha (α := ℝ) N|) / (1 - |1 - roofAlpha (α := ℝ) N|))
+        / (1 - SsStable.ssA M') ^ 2 := by
+  rw [C11.roofing_eq N M' hM] at h
+  exact DoublePole.roofing_bibo N M' hN hM B xs hx v (by simpa using h)
+
+/-- **|TrendFlex| ≤ 5 and |ReFlex| ≤ 5**: for every N, every input whatsoever and every stream length -/
+theorem trendFlex_bound (N : Nat) (xs : List ℝ) (v : ℝ) (h : Spec.trendFlex N xs = some v) : |v| ≤ 5 :=
+  FlexBound.trendFlex_bound N xs v h
+theorem reFlex_bound (N : Nat) (xs : List ℝ) (v : ℝ) (h : Spec.reFlex N xs = some v) : |v| ≤ 5 :=
+  FlexBound.reFlex_bound N xs v h
+
+theorem trendFlex_view_bound (N : Nat) (hN : 3 ≤ N) (xs : List ℝ) (v : ℝ)
+    (h : (tflexCore (α := ℝ) N).outAfter xs = .ok (some v)) : |v| ≤ 5 := by
+  rw [C11.trendFlex_eq N hN] at h
+  exact FlexBound.trendFlex_bound N xs v (by simpa using h)
+theorem reFlex_view_bound (N : Nat) (hN : 3 ≤ N) (xs : List ℝ) (v : ℝ)
+    (h : (rflexCore (α := ℝ) N).outAfter xs = .ok (some v)) : |v| ≤ 5 := by
+  rw [C11.reFlex_eq N hN] at h
+  exact FlexBound.reFlex_bound N xs v (by simpa using h)
 
 end SF.C09.Real
